@@ -162,6 +162,16 @@ package syncer
 //@   ensures all_projected: r0 == nil ==> ghost_loc_pending == 0
 //@   ensures dirty_only_set: ghost_dirty == old(ghost_dirty) || ghost_dirty == 1
 
+// NativeIterator.Next hands out the next snapshot entry as decoded, or the
+// decoder's error (io.EOF at the end): an entry that fails to decode is never
+// skipped.
+//@ func (it *NativeIterator) Next
+//@   assumes dbi_cursor_in_range: 0 <= it.DBIMsg.cur && it.DBIMsg.cur <= len(it.DBIMsg.data)
+//@   noswallow
+//@   modifies heap
+//@   ensures delivers_the_current_entry: err == nil ==> sameSlice(key, it.curKV.Key)
+//@   ensures nothing_on_error: err != nil ==> isnil(key)
+
 // deletedCutoff: no cutoff without the sweeper; otherwise the given time minus
 // the configured retention (less the load margin), as a header timestamp.
 //@ func (s *Syncer) deletedCutoff
@@ -334,6 +344,8 @@ package syncer
 //@   ensures cancellation_aborts_the_transaction: ghost_loc_cancelled == 1 ==> r0 != nil
 //@   loop 0 invariant not_failed: ghost_loc_failed == 0
 //@   at_call lmdb.(*Txn).OpenDBI#0 assert not_private: !hasPrefix(arg1, "_sync") && arg1 == dbiMsg.name
+//@   at_call lmdb.(*Txn).OpenDBI#0 assert application_dbi_created_with_the_snapshots_flags: dbiOpt.OverrideCreateFlags == nil ==> uint64(arg2) == 262144 | uint64(uint16(dbiMsg.flags))
+//@   at_call lmdb.(*Txn).OpenDBI#1 assert target_created_with_the_snapshots_flags: dbiOpt.OverrideCreateFlags == nil ==> (schemaTracksChanges ==> uint64(arg2) == 262144 | uint64(uint16(dbiMsg.flags))) && (!schemaTracksChanges ==> uint64(arg2) == 262144 | (dbiMsg.flags & 8))
 //@   at_call lmdb.(*Txn).OpenDBI#0 assert create_rule: snap.FormatVersion >= 3 || dbiOpt.OverrideCreateFlags != nil
 //@   let isTarget = !hasPrefix(dbiMsg.name, "_sync") && (schemaTracksChanges ==> arg1 == dbiMsg.name) && (!schemaTracksChanges ==> hasPrefix(arg1, "_sync_shadow_") && len(arg1) == 13 + len(dbiMsg.name))
 //@   at_call lmdb.(*Txn).OpenDBI#1 assert not_private: isTarget
